@@ -25,10 +25,12 @@ class C10(Check):
         "V2": "segment binding: every evaluation of model quantities for a segment is preceded, in the same iteration over "
               "zip(.., self.raw_parameters), by self.model.update_parameters(<that segment's parameters>)",
         "V3": "concatenated views are pd.concat(<per-segment list>, axis=0) in list order",
+        "V6": "normalisation is applied exactly once per view: the `normalise` argument flows into exactly one normalising call on every "
+              "path (a view that forwards it to an inner view must not apply it again)",
         "V4": "producers select coefficients > 0, consumers < 0; scaled views multiply by the coefficient (consumers by its negation)",
         "V5": "all views read the lazily filled argument table through the single filler, which fills at most once, one table per segment",
     }
-    floors = {"V1": 4, "V2": 4, "V3": 3, "V4": 4, "V5": 3}
+    floors = {"V1": 4, "V2": 4, "V3": 3, "V4": 4, "V5": 3, "V6": 5}
     decided = [
         "every normalisation argument shape yields a view computed from the data and the factors (no dead branch)",
         "quantities of a segment are computed under that segment's parameter values",
@@ -45,6 +47,7 @@ class C10(Check):
         self.v3(mod)
         self.v4(mod)
         self.v5(mod)
+        self.v6(mod)
 
     # ------------------------------------------------------------------
     def v1(self, mod) -> None:
@@ -220,16 +223,67 @@ class C10(Check):
             fn = mod.methods(CLS)[name]
             q = f"{CLS}.{name}"
             cs = [c for c in ast.walk(fn) if isinstance(c, ast.Call) and norm(c.func) == "pd.concat"]
-            if not cs:
-                self.violated("V3", MOD, q, "concat", fn, "no pd.concat of the per-segment list")
-                continue
-            c = cs[0]
-            kw = {k.arg: norm(k.value) for k in c.keywords}
-            if isinstance(c.args[0], ast.Name) and kw.get("axis", "0") == "0":
-                self.holds("V3", MOD, q, "concat", c, f"pd.concat({c.args[0].id}, axis=0) in list order")
+            dl = [c for c in ast.walk(fn) if isinstance(c, ast.Call) and norm(c.func) == "self._adjust_data" and name != "_adjust_data"]
+            if cs:
+                c = cs[0]
+                kw = {k.arg: norm(k.value) for k in c.keywords}
+                if isinstance(c.args[0], ast.Name) and kw.get("axis", "0") == "0":
+                    self.holds("V3", MOD, q, "concat", c, f"pd.concat({c.args[0].id}, axis=0) in list order")
+                else:
+                    self.violated("V3", MOD, q, "concat", c, f"`{norm(c)}` does not stack the per-segment frames in order along axis 0",
+                                  witness="a two-segment result: rows of the concatenated view are reordered / placed side by side")
+            elif dl and isinstance(dl[0].args[0], ast.Name) and {k.arg: norm(k.value) for k in dl[0].keywords}.get("concatenated") == "concatenated":
+                self.holds("V3", MOD, q, "concat", dl[0], f"delegates stacking of {dl[0].args[0].id} to _adjust_data (checked there)")
             else:
-                self.violated("V3", MOD, q, "concat", c, f"`{norm(c)}` does not stack the per-segment frames in order along axis 0",
-                              witness="a two-segment result: rows of the concatenated view are reordered / placed side by side")
+                self.violated("V3", MOD, q, "concat", fn, "the per-segment list is neither stacked with pd.concat(.., axis=0) nor handed to _adjust_data")
+
+    def v6(self, mod) -> None:
+        NORMALISERS = ("self._adjust_data", "_normalise_split_results", "self.get_fluxes", "self.get_variables", "self.get_args", "self.get_right_hand_side")
+        for name, fn in mod.methods(CLS).items():
+            if any(norm(d) == "overload" for d in fn.decorator_list):
+                continue
+            if "normalise" not in [a.arg for a in fn.args.args + fn.args.kwonlyargs]:
+                continue
+            q = f"{CLS}.{name}"
+
+            class Count(ast.NodeVisitor):
+                pass
+
+            from ..interp import PathInterp
+
+            class NI(PathInterp):
+                def simple(self_i, stmt, st):
+                    n = st
+                    for c in ast.walk(stmt):
+                        if isinstance(c, ast.Call) and norm(c.func) in NORMALISERS:
+                            kw = {k.arg: norm(k.value) for k in c.keywords}
+                            if kw.get("normalise") == "normalise":
+                                n += 1
+                    if isinstance(stmt, ast.Return):
+                        yield ("return", n)
+                        return
+                    if isinstance(stmt, ast.Raise):
+                        yield ("raise", n, None)
+                        return
+                    yield ("normal", n)
+
+            out = NI().run_function(fn, 0)
+            counts = sorted({st for st, _ in out.returns})
+            if name == "_adjust_data":
+                # the normaliser itself: applies iff normalise is not None
+                t = " ".join(norm(fn).split())
+                if "if normalise is not None: data = _normalise_split_results(data, normalise=normalise)" in t:
+                    self.holds("V6", MOD, q, "normalise-once", fn, "applies the factors once, iff they are given")
+                else:
+                    self.violated("V6", MOD, q, "normalise-once", fn, "_adjust_data does not apply the factors exactly once when given")
+                continue
+            if counts == [1]:
+                self.holds("V6", MOD, q, "normalise-once", fn, "`normalise` reaches exactly one normalising call on every path")
+            else:
+                self.violated("V6", MOD, q, "normalise-once", fn,
+                              f"`normalise` reaches {counts} normalising calls depending on the path: the view is divided by the factors "
+                              + ("more than once" if max(counts) > 1 else "not at all"),
+                              witness="get_producers('x', normalise=2.0) returns fluxes divided by 4 (or undivided)")
 
     def v4(self, mod) -> None:
         for name, op, sign in (("get_producers", ast.Gt, ""), ("get_consumers", ast.Lt, "-")):
@@ -313,12 +367,17 @@ class C10(Check):
             Variant("consumers-unsigned", MOD, f"{CLS}.get_consumers", "v.loc[:, k] *= -stoichs[k]", "v.loc[:, k] *= stoichs[k]", expect="V4|"),
             Variant("concat-reversed", MOD, f"{CLS}._adjust_data", "pd.concat(data, axis=0)", "pd.concat(data[::-1], axis=0)", expect="V3|", quick=True),
             Variant("concat-columns", MOD, f"{CLS}.get_producers", "pd.concat(fluxes, axis=0)", "pd.concat(fluxes, axis=1)", expect="V3|"),
+            Variant("producers-normalised-twice", MOD, f"{CLS}.get_producers", "    if concatenated:\n        return pd.concat(fluxes, axis=0)\n    return fluxes",
+                    "    return self._adjust_data(fluxes, normalise=normalise, concatenated=concatenated)", expect="V6|", quick=True),
+            Variant("fluxes-never-normalised", MOD, f"{CLS}.get_fluxes", "return self._adjust_data(fluxes, normalise=normalise, concatenated=concatenated)", "return self._adjust_data(fluxes, normalise=None, concatenated=concatenated)", expect="V6|"),
             Variant("filler-refills", MOD, f"{CLS}._compute_args", "    if len(self.raw_args) > 0:\n        return self.raw_args\n", "", expect="V5|", quick=True),
             Variant("view-bypasses-filler", MOD, f"{CLS}.get_fluxes", "self._compute_args()", "self.raw_args", expect="V5|"),
         ]
 
     def must_stay_silent(self):
         return [
+            Variant("producers-delegate-stacking", MOD, f"{CLS}.get_producers", "    if concatenated:\n        return pd.concat(fluxes, axis=0)\n    return fluxes",
+                    "    return self._adjust_data(fluxes, normalise=None, concatenated=concatenated)"),
             Variant("rename-out", MOD, "_normalise_split_results", r"\bout\b", "normalised", count=0, regex=True, quick=True),
             Variant("end-incremental", MOD, "_normalise_split_results", "        end = start + len(i)", "        end = len(i) + start"),
             Variant("start-by-length", MOD, "_normalise_split_results", "        start = end", "        start += len(i)"),
